@@ -6,7 +6,7 @@ known-findings list, writes evidence/<id>.json and prints the verdict lines.
 
 exit 0  held on everything explored (KNOWN-FINDING lines for listed mechanisms observed)
 exit 1  VIOLATION property=<id> replay=<path>   for each distinct unlisted violation
-exit 2  INCONCLUSIVE property=<id> reason=...    deciding monitor never reached / too many timeouts
+exit 2  INCONCLUSIVE property=<id> reason=...    deciding monitor never reached / more than 3 % of the cases timed out
 """
 import argparse
 import importlib
@@ -165,7 +165,7 @@ def main(argv=None):
     total = m["cases"] + m["inconclusive"]
     if total == 0 or m["cases"] == 0:
         reasons.append("no-case-completed")
-    elif m["inconclusive"] > 0.02 * total and m["inconclusive"] > 2:
+    elif m["inconclusive"] > 0.03 * total and m["inconclusive"] > 2:
         reasons.append("inconclusive-share=%d/%d" % (m["inconclusive"], total))
     for cname in getattr(mod, "DECIDING_COUNTERS", []):
         if m["counters"].get(cname, 0) == 0:
